@@ -58,7 +58,73 @@ def c07(run):
                                      "DON'T-CARE: RFU values inside a field's width (Version.Minor 2..15, ForceRejoinReq.RejoinType 1,3..7, DutyCycleReq 16..255, DeviceMode class 1,3..255)"])
 
 
-PROPS = {"C07": c07}
+def gen_frame_cases(run, mode):
+    cases = os.path.join(run.scratch, "frame-%s-cases.ndjson" % mode)
+    run.design_check("FrameGen", workers=1, env={"VERIF_GEN": run.tier, "VERIF_GENMODE": mode, "VERIF_CASES": cases})
+    n = dedupe_cases(cases)
+    if n < 1000:
+        raise MachineryError("FrameGen(%s) emitted only %d cases" % (mode, n))
+    run.coverage_extra["tlc_generated_cases"] = run.coverage_extra.get("tlc_generated_cases", 0) + n
+    return cases
+
+
+FRAME_ASSUME = ["projection tables harness/proj_frame.go, proj_maccmd.go", "TLC + CommunityModules",
+                "DON'T-CARE: invalid frame values that the encoder accepts; Major values 1..3; CFList types other than 0/1"]
+
+
+def c01(run):
+    run.selftest()
+    cases = gen_frame_cases(run, "val")
+    t = run.record("frame", "cases", cases=cases)
+    run.validate("frame", t, "Trace_frame", label="(R) shape-exhaustive frame values", chunk=4000)
+    t = run.record("frame", "roundtrip", n=T(run, 4000, 120000))
+    run.validate("frame", t, "Trace_frame", label="(V) random frame values", chunk=4000)
+    t = run.record("frame", "bytes", n=T(run, 4000, 50000))
+    run.validate("frame", t, "Trace_frame", label="(V) base64 path on byte strings", chunk=4000)
+    run.require_kinds("frame/rt", "frame/bytes")
+    run.rc = run.finish(assumptions=FRAME_ASSUME)
+
+
+def c08(run):
+    run.selftest()
+    cases = gen_frame_cases(run, "bytes")
+    t = run.record("frame", "bytecases", cases=cases)
+    run.validate("frame", t, "Trace_frame", label="(R) guard-boundary byte shapes", chunk=8000)
+    t = run.record("frame", "bytes", n=T(run, 40000, 3000000))
+    run.validate("frame", t, "Trace_frame", label="(V) uniform + mutated byte strings", chunk=10000)
+    run.require_kinds("frame/bytes")
+    run.rc = run.finish(assumptions=FRAME_ASSUME + ["C08 does not assert WHICH strings are accepted, only that accepted ones are canonical"])
+
+
+def c06(run):
+    run.selftest()
+    cases = gen_maccmd_cases(run)
+    t = run.record("maccmd", "cases", cases=cases)
+    run.validate("maccmd", t, "Trace_maccmd", label="(R) spec-enumerated command values -> encoder")
+    t = run.record("maccmd", "decode1")
+    run.validate("maccmd", t, "Trace_maccmd", label="(R) all 256 bytes of every 1-byte payload -> decoder")
+    run.exhaustive.append("all byte values of every 1-byte MAC payload, both roles")
+    t = run.record("maccmd", "decode2", n=T(run, 4000, 0))
+    run.validate("maccmd", t, "Trace_maccmd", label="(R) 2-byte payloads -> decoder", chunk=50000)
+    if run.tier == "thorough":
+        run.exhaustive.append("all 65536 byte pairs of every 2-byte MAC payload")
+    t = run.record("maccmd", "decodeN", n=T(run, 2000, 100000))
+    run.validate("maccmd", t, "Trace_maccmd", label="(V) 3-5 byte payloads -> decoder", chunk=50000)
+    t = run.record("maccmd", "values", n=T(run, 20000, 1000000))
+    run.validate("maccmd", t, "Trace_maccmd", label="(V) random values -> encoder", chunk=100000)
+    fcases = gen_frame_cases(run, "val")
+    t = run.record("frame", "cases", cases=fcases)
+    run.validate("frame", t, "Trace_frame", label="(R) frame headers / join payloads / CFList", chunk=4000)
+    t = run.record("frame", "roundtrip", n=T(run, 3000, 60000))
+    run.validate("frame", t, "Trace_frame", label="(V) random frames -> bytes", chunk=4000)
+    bcases = gen_frame_cases(run, "bytes")
+    t = run.record("frame", "bytecases", cases=bcases)
+    run.validate("frame", t, "Trace_frame", label="(R) byte shapes -> field values", chunk=8000)
+    run.require_kinds("maccmd/enc", "maccmd/dec", "frame/rt", "frame/bytes")
+    run.rc = run.finish(assumptions=FRAME_ASSUME + ["DutyCycleReq is modelled as a whole byte (4-bit field + legacy 255): values 16..255 are DON'T-CARE"])
+
+
+PROPS = {"C01": c01, "C06": c06, "C07": c07, "C08": c08}
 
 
 def replay(run, path):
